@@ -527,6 +527,11 @@ private:
                 binary::native_to_little(static_cast<int64_t>(val*millis_in_second),std::back_inserter(buffer_));
                 break;
             case semantic_tag::epoch_milli:
+                if (val > static_cast<uint64_t>((std::numeric_limits<int64_t>::max)()))
+                {
+                    ec = bson_errc::datetime_too_large;
+                    JSONCONS_VISITOR_RETURN;
+                }
                 before_value(jsoncons::bson::bson_type::datetime_type);
                 binary::native_to_little(static_cast<int64_t>(val),std::back_inserter(buffer_));
                 break;
